@@ -6,7 +6,10 @@ TInit == l = 1
 TNext == l <= Len(Tr) /\ l' = l + 1
 Report ==
   IF l > Len(Tr) THEN PrintT("VERDICT " \o ToJson([done |-> Len(Tr)]))
-  ELSE LET e == Tr[l] IN SessionOk(e) \/
+  ELSE LET e == Tr[l] IN
+       IF "pc" \in DOMAIN e
+       THEN FetchOk(e) \/ PrintT("VERDICT " \o ToJson([id |-> e.id, at |-> 0, expect |-> FetchExpect(e)]))
+       ELSE SessionOk(e) \/
        LET i == Replay(InitMem(e.init), e.bpa, e.big, e.cmds, 1) IN
        PrintT("VERDICT " \o ToJson([id |-> e.id, at |-> i,
                  expect |-> PrintRows(MemAfter(InitMem(e.init), e.bpa, e.big, SubSeq(e.cmds, 1, i - 1), 1), e.bpa, e.big, e.cmds[i].w, e.cmds[i].a, e.cmds[i].b)]))
